@@ -23,7 +23,7 @@ pub(crate) fn try_from<'a, P: Pe<'a>>(pe: P) -> Result<Security<'a>> {
 	}
 	// Interpret the bytes
 	let start = datadir.VirtualAddress as usize;
-	let end = (datadir.VirtualAddress + datadir.Size) as usize;
+	let end = start.checked_add(datadir.Size as usize).ok_or(Error::Overflow)?;
 	let image = pe.image().get(start..end).ok_or(Error::Bounds)?;
 	Ok(unsafe { Security::new(image) })
 }
